@@ -1,4 +1,5 @@
 import GoBk.Proofs.PathLemmas
+import GoBk.Proofs.Bip32Lemmas
 /-
   C08 — derivation paths and extended-key strings.
 
@@ -69,6 +70,192 @@ example : Bip32.parsePath [49, 47, 47, 50] = none ∧ Bip32.parsePath [49, 47] =
 theorem deriveNumber_derivePath (i : UInt64) :
     Bip32.deriveNumber (Bip32.derivePath i) = some i := Bip32.deriveNumber_derivePath i
 
+/-! ### NewKeyFromString(k.String())
+
+`WF k` (decidable, `GoBk.Proofs.Bip32Lemmas`): version 4 bytes, chain code 32, fingerprint 4,
+depth < 256, child number < 2^32, private ⇒ 1 ≤ scalar < n in at most 32 bytes, public ⇒ a valid
+33-byte compressed key.  `normalize k` is `k` with the private key bytes left-padded to 32 bytes
+(`Child` stores a child's scalar as MINIMAL big-endian bytes, `NewKeyFromString` always reads 32);
+for public keys, master keys and re-imported keys `normalize k = k`. -/
+
+/-- the round trip succeeds and returns `k` up to that padding -/
+theorem fromString_toString (pr : Prims) (ok : PrimsOK pr) (k : XKey) (h : WF k) :
+    Bip32.fromString pr (Bip32.toString pr k) = .ok (Bip32.normalize k) :=
+  Bip32.fromString_toString pr ok k h
+
+theorem normalize_def (k : XKey) :
+    Bip32.normalize k = if k.isPrivate then { k with key := padLeft 32 k.key } else k := rfl
+
+theorem normalize_eq_self (k : XKey) (h : k.isPrivate = true → k.key.length = 32) :
+    Bip32.normalize k = k := Bip32.normalize_of_len k h
+
+/-- **the re-imported key is indistinguishable from the original**: same serialisation, type, depth,
+child number, chain code, version, parent fingerprint, private scalar, public key, address for every
+network byte, the same neutered key and — for every index — the same child (hardened children
+included: this is where the right-alignment of a short private key in `Child` matters, finding D1). -/
+theorem reimport_same (pr : Prims) (ok : PrimsOK pr) (k : XKey) (h : WF k) :
+    ∃ k', Bip32.fromString pr (Bip32.toString pr k) = .ok k' ∧ WF k' ∧
+      Bip32.toString pr k' = Bip32.toString pr k ∧
+      k'.isPrivate = k.isPrivate ∧ k'.depth = k.depth ∧ k'.childNum = k.childNum ∧
+      k'.chainCode = k.chainCode ∧ k'.version = k.version ∧
+      Bip32.parentFingerprint k' = Bip32.parentFingerprint k ∧
+      Bip32.ecPrivKey k' = Bip32.ecPrivKey k ∧ Bip32.ecPubKey k' = Bip32.ecPubKey k ∧
+      k'.pubKeyBytes = k.pubKeyBytes ∧
+      (∀ a, Bip32.address pr k' a = Bip32.address pr k a) ∧
+      (∀ reg, Bip32.neuter reg k' = Bip32.neuter reg k) ∧
+      (∀ i, Bip32.child pr k' i = Bip32.child pr k i) := by
+  obtain ⟨f1, f2, f3, f4, f5, f6, f7⟩ := Bip32.normalize_fields k
+  have hne : k.key ≠ [] := by
+    intro e
+    cases hp : k.isPrivate
+    · have := (h.2.2.2.2.2.2 hp).1; rw [e] at this; cases this
+    · have := (h.2.2.2.2.2.1 hp).1; rw [e] at this; simp at this
+  exact ⟨_, fromString_toString pr ok k h, Bip32.normalize_WF k h, Bip32.normalize_toString pr k hne,
+    f6, f5, f4, f1, f3, Bip32.normalize_parentFingerprint k, Bip32.normalize_ecPrivKey k,
+    Bip32.normalize_ecPubKey k, Bip32.normalize_pubKeyBytes k, Bip32.normalize_address pr k,
+    fun reg => Bip32.normalize_neuter reg k, fun i => Bip32.normalize_child pr k i h⟩
+
+/-- consequently all descendants along any path coincide -/
+theorem reimport_same_path (pr : Prims) (k : XKey) (h : WF k) (p : Bytes) (hp : p ≠ []) :
+    (Bip32.deriveChildFromPath pr (Bip32.normalize k) p).toOption =
+      (Bip32.deriveChildFromPath pr k p).toOption := by
+  rw [derivePath_spec, derivePath_spec]
+  cases hpp : Bip32.parsePath p with
+  | none => rfl
+  | some is =>
+    cases is with
+    | nil =>
+      exfalso
+      rcases (parsePath_iff p []).1 hpp with ⟨e, _⟩ | ⟨_, comps, h1, h2, _⟩
+      · exact hp e
+      · cases comps with
+        | nil => exact hp (by rw [h1]; rfl)
+        | cons a b => cases h2
+    | cons i is =>
+      show ((i :: is).foldlM (Bip32.child pr) (Bip32.normalize k)).toOption =
+        ((i :: is).foldlM (Bip32.child pr) k).toOption
+      rw [List.foldlM_cons, List.foldlM_cons, Bip32.normalize_child pr k i h]
+
+/-- keys made by `NewKeyFromString` (and master keys, and public keys) round-trip exactly -/
+theorem fromString_toString_exact (pr : Prims) (ok : PrimsOK pr) (s : Bytes) (k : XKey)
+    (h : Bip32.fromString pr s = .ok k) : Bip32.fromString pr (Bip32.toString pr k) = .ok k :=
+  Bip32.fromString_toString_of_fromString pr ok s k h
+
+/-- `String()` is Base58(BIP-0032 serialization ‖ first 4 bytes of its double SHA-256) -/
+theorem toString_layout (pr : Prims) (k : XKey) (h : WF k) :
+    Bip32.toString pr k = Base58.encode
+      (Spec.Bip32.serialize k.version k.depth k.parentFP k.childNum k.chainCode
+          (if k.isPrivate then 0x00 :: Spec.Bip32.ser256 (beNat k.key) else k.key) ++
+        (pr.sha256d (Spec.Bip32.serialize k.version k.depth k.parentFP k.childNum k.chainCode
+          (if k.isPrivate then 0x00 :: Spec.Bip32.ser256 (beNat k.key) else k.key))).take 4) :=
+  Bip32.toString_layout pr k h
+
+/-! ### what NewKeyFromString accepts and refuses -/
+
+/-- complete characterisation of acceptance, with the returned key -/
+theorem fromString_iff (pr : Prims) (s : Bytes) (k : XKey) :
+    Bip32.fromString pr s = .ok k ↔
+      (Base58.decode s).length = 82 ∧
+      (Base58.decode s).drop 78 = (pr.sha256d ((Base58.decode s).take 78)).take 4 ∧
+      ((Bip32.keyField (Base58.decode s)).headD 1 = 0 ∧
+          1 ≤ beNat ((Bip32.keyField (Base58.decode s)).drop 1) ∧
+          beNat ((Bip32.keyField (Base58.decode s)).drop 1) < Spec.N ∧
+          k = { key := (Bip32.keyField (Base58.decode s)).drop 1,
+                chainCode := (((Base58.decode s).take 78).drop 13).take 32,
+                parentFP := (((Base58.decode s).take 78).drop 5).take 4,
+                version := ((Base58.decode s).take 78).take 4,
+                childNum := beNat ((((Base58.decode s).take 78).drop 9).take 4),
+                depth := (((Base58.decode s).take 78).getD 4 0).toNat, isPrivate := true } ∨
+       (Bip32.keyField (Base58.decode s)).headD 1 ≠ 0 ∧
+          (Ecdsa.parsePubKey (Bip32.keyField (Base58.decode s))).isSome = true ∧
+          k = { key := Bip32.keyField (Base58.decode s),
+                chainCode := (((Base58.decode s).take 78).drop 13).take 32,
+                parentFP := (((Base58.decode s).take 78).drop 5).take 4,
+                version := ((Base58.decode s).take 78).take 4,
+                childNum := beNat ((((Base58.decode s).take 78).drop 9).take 4),
+                depth := (((Base58.decode s).take 78).getD 4 0).toNat, isPrivate := false }) :=
+  Bip32.fromString_iff pr s k
+
+theorem keyField_def (d : Bytes) : Bip32.keyField d = ((d.take 78).drop 45).take 33 := rfl
+
+/-- every accepted key is well-formed: in particular a private scalar is in [1, n-1] and key bytes
+of a public key are a valid compressed public key -/
+theorem fromString_sound (pr : Prims) (s : Bytes) (k : XKey) (h : Bip32.fromString pr s = .ok k) :
+    (Base58.decode s).length = 82 ∧
+    (Base58.decode s).drop 78 = (pr.sha256d ((Base58.decode s).take 78)).take 4 ∧
+    WF k ∧
+    (k.isPrivate = true → 1 ≤ beNat k.key ∧ beNat k.key < Spec.N ∧ k.key.length = 32) ∧
+    (k.isPrivate = false → (Ecdsa.parsePubKey k.key).isSome = true ∧ k.key.length = 33) := by
+  obtain ⟨hl, hc, _⟩ := (Bip32.fromString_ok_iff pr s k).1 h
+  obtain ⟨hw, h32⟩ := Bip32.fromString_WF pr s k h
+  refine ⟨hl, hc, hw, fun hp => ?_, fun hp => ?_⟩
+  · obtain ⟨b1, b2, _⟩ := hw.2.2.2.2.2.1 hp
+    exact ⟨b1, by rw [← Bip32.N_eq]; exact b2, h32 hp⟩
+  · obtain ⟨b1, b2⟩ := hw.2.2.2.2.2.2 hp
+    exact ⟨b2, b1⟩
+
+/-- refusal 1: wrong length -/
+theorem fromString_wrong_length (pr : Prims) (s : Bytes) (h : (Base58.decode s).length ≠ 82) :
+    Bip32.fromString pr s = .error .invalidKeyLen := Bip32.fromString_wrong_length pr s h
+
+/-- refusal 2: wrong checksum -/
+theorem fromString_wrong_checksum (pr : Prims) (s : Bytes) (hl : (Base58.decode s).length = 82)
+    (h : (Base58.decode s).drop 78 ≠ (pr.sha256d ((Base58.decode s).take 78)).take 4) :
+    Bip32.fromString pr s = .error .badChecksum := Bip32.fromString_wrong_checksum pr s hl h
+
+/-- refusal 3: private scalar outside [1, n-1] -/
+theorem fromString_bad_scalar (pr : Prims) (s : Bytes) (hl : (Base58.decode s).length = 82)
+    (hc : (Base58.decode s).drop 78 = (pr.sha256d ((Base58.decode s).take 78)).take 4)
+    (h0 : (Bip32.keyField (Base58.decode s)).headD 1 = 0)
+    (hr : beNat ((Bip32.keyField (Base58.decode s)).drop 1) = 0 ∨
+          beNat ((Bip32.keyField (Base58.decode s)).drop 1) ≥ Spec.N) :
+    Bip32.fromString pr s = .error .unusableSeed := Bip32.fromString_bad_scalar pr s hl hc h0 hr
+
+/-- refusal 4: key bytes that are not a valid compressed public key -/
+theorem fromString_bad_pubkey (pr : Prims) (s : Bytes) (hl : (Base58.decode s).length = 82)
+    (hc : (Base58.decode s).drop 78 = (pr.sha256d ((Base58.decode s).take 78)).take 4)
+    (h0 : (Bip32.keyField (Base58.decode s)).headD 1 ≠ 0)
+    (hp : Ecdsa.parsePubKey (Bip32.keyField (Base58.decode s)) = none) :
+    Bip32.fromString pr s = .error .badPubKey := Bip32.fromString_bad_pubkey pr s hl hc h0 hp
+
+/-! ### non-vacuity -/
+
+private def toy : Prims where
+  sha256 := fun b => List.replicate 31 7 ++ [UInt8.ofNat b.length]
+  sha512 := fun _ => List.replicate 64 0
+  ripemd160 := fun _ => List.replicate 20 0
+  hmac256 := fun _ _ => List.replicate 32 0
+  hmac512 := fun _ _ => List.replicate 31 0 ++ [1] ++ List.replicate 32 9
+  pbkdf2_512 := fun _ _ _ _ => []
+  cbcEnc := fun _ _ d => d
+  cbcDec := fun _ _ d => d
+  cfbEnc := fun _ _ d => d
+  cfbDec := fun _ _ d => d
+  b64enc := fun b => b
+  b64dec := fun b => some b
+
+private theorem toyOK : PrimsOK toy where
+  sha256_len := fun _ => by simp [toy]
+  sha512_len := fun _ => rfl
+  ripemd160_len := fun _ => rfl
+  hmac256_len := fun _ _ => rfl
+  hmac512_len := fun _ _ => rfl
+  cbc_len := fun _ _ _ => rfl
+  cbc_inv := fun _ _ _ _ _ _ => rfl
+  cfb_inv := fun _ _ _ => rfl
+  cfb_len := fun _ _ _ => rfl
+  b64_inv := fun _ => rfl
+
+/-- a private key with a SHORT scalar (1 byte), as `Child` can produce -/
+private def k0 : XKey :=
+  { key := [5], chainCode := List.replicate 32 7, parentFP := [1, 2, 3, 4], version := Gen.net_MainNet_hdPriv,
+    childNum := 2 ^ 31 + 3, depth := 2, isPrivate := true }
+
+example : WF k0 := by decide
+example : Bip32.normalize k0 ≠ k0 := by decide
+example : ∃ k', Bip32.fromString toy (Bip32.toString toy k0) = .ok k' ∧ k'.key = List.replicate 31 0 ++ [5] :=
+  ⟨_, fromString_toString toy toyOK k0 (by decide), by decide⟩
+
 end GoBk.Props.C08
 
 #print axioms GoBk.Props.C08.childIndex_eq_spec
@@ -78,3 +265,15 @@ end GoBk.Props.C08
 #print axioms GoBk.Props.C08.derivePath_of_isPath
 #print axioms GoBk.Props.C08.derivePath_rejects
 #print axioms GoBk.Props.C08.deriveNumber_derivePath
+#print axioms GoBk.Props.C08.fromString_toString
+#print axioms GoBk.Props.C08.normalize_eq_self
+#print axioms GoBk.Props.C08.reimport_same
+#print axioms GoBk.Props.C08.reimport_same_path
+#print axioms GoBk.Props.C08.fromString_toString_exact
+#print axioms GoBk.Props.C08.toString_layout
+#print axioms GoBk.Props.C08.fromString_iff
+#print axioms GoBk.Props.C08.fromString_sound
+#print axioms GoBk.Props.C08.fromString_wrong_length
+#print axioms GoBk.Props.C08.fromString_wrong_checksum
+#print axioms GoBk.Props.C08.fromString_bad_scalar
+#print axioms GoBk.Props.C08.fromString_bad_pubkey
